@@ -1067,7 +1067,22 @@ func (sc *scenario) runAgree(maxOps int) {
 		sc.mark("adopted")
 		// competitor
 		if g != nil {
+			// the competitor's own block may register an address the leader's chain does not (a yielding payment
+			// submitted to the competitor only)
+			if r.Intn(2) == 0 {
+				if ty, _ := sc.makeTx(g, "yield-new"); ty != nil {
+					w.Submit(g, ty)
+				}
+			}
 			w.Tick(g, sc.clock)
+			// the leader verifies the competing tip as well — and keeps its own or adopts it, as fork choice decides;
+			// whatever it verified and did not adopt must leave no trace in what it produces next
+			if r.Intn(2) == 0 {
+				w.Sync(a, sc.clock, []trace.Neighbour{trace.Honest(g)})
+				if !sameChain(f, a) {
+					sc.catchUp(f, a, sc.clock, bound())
+				}
+			}
 			g.Log.Drain()
 			vv, _ := w.Sync(g, sc.clock, []trace.Neighbour{trace.Honest(a)})
 			_ = vv
